@@ -95,6 +95,27 @@ asn1constraint_pullup(arg_t *arg) {
 	ct_expr = asn1p_constraint_clone(ct_expr);
 	assert(ct_expr);
 
+	if(ct_expr->type == ACT_CT_SIZE) {
+		/*
+		 * "SEQUENCE SIZE(1..5,...) OF": the SizeConstraint itself is the
+		 * type's constraint. Treat it as "(SIZE(1..5,...))" is treated:
+		 * the single element of a serial set. Otherwise its extension
+		 * mark is not recognized as the last one (and is removed), and
+		 * a subtype's constraints would be added into the SIZE node.
+		 */
+		asn1p_constraint_t *set =
+			asn1p_constraint_new(ct_expr->_lineno, ct_expr->module);
+		assert(set);
+		set->type = ACT_CA_SET;
+		if(asn1p_constraint_insert(set, ct_expr)) {
+			asn1p_constraint_free(set);
+			asn1p_constraint_free(ct_expr);
+			if(ct_parent) asn1p_constraint_free(ct_parent);
+			return -1;
+		}
+		ct_expr = set;
+	}
+
 	/*
 	 * Now we have a set of current expression's constraints,
 	 * and an optional set of the parent expression's constraints.
